@@ -272,10 +272,16 @@ def effects(ctx):
     ctx.ob("FRM", site, "window column + random walk of (to - from) steps starting at x0", ok, "", mu[0] if mu else None)
     site = "BrownianNoiseInjector._random_walk"
     tw = ctx.trace("BrownianNoiseInjector", "_random_walk")
-    init = [e for e in tw.of("local") if e.name == "w" and not e.aug]
+    wname = None
+    if tw.retval is not None:
+        ra_ = q.unmut(tw.retval).single_atom()
+        lvs = [z for z in T.atoms_of(tw.retval, "loopvar") if z[2].startswith("$")]
+        if lvs:
+            wname = lvs[0][2][1:]
+    init = [e for e in tw.of("local") if e.name == wname and not e.aug]
     ok = len(init) == 1 and T.same(init[0].value, atom(("call", "numpy.ones", (P("steps"),), ())) * P("x0"))
     ctx.ob("FRM", site, "the walk starts at x0", ok, q.short(init[0].value, 80) if init else "")
-    st = [e for e in tw.of("localmut") if e.name == "w" and e.how == "setitem"]
+    st = [e for e in tw.of("localmut") if e.name == wname and e.how == "setitem"]
     ok = len(st) == 1
     if ok:
         i = st[0].path[0][1]
@@ -293,7 +299,13 @@ def effects(ctx):
     # --- LabelProbability: resampled rows come from the window only
     site = "LabelProbabilityInjector.__call__"
     tr = ctx.trace("LabelProbabilityInjector", "__call__")
-    ext = [e for e in tr.of("localmut") if e.name == "sample_idxs_grouped" and e.how == "method:extend"]
+    ch0 = [e for e in tr.calls() if e.callee == ("lib", "numpy.random.choice")]
+    pool = None
+    if ch0 and ch0[0].args:
+        pa_ = ch0[0].args[0].single_atom()
+        if pa_ is not None and pa_[0] == "loopvar" and pa_[2].startswith("$"):
+            pool = pa_[2][1:]
+    ext = [e for e in tr.of("localmut") if e.name == pool and e.name is not None and e.how == "method:extend"]
     ok = len(ext) == 1
     if ok:
         v = ext[0].value.single_atom()[1][0]
@@ -303,7 +315,7 @@ def effects(ctx):
            "the pool of candidate rows must not contain rows outside the window", ext[0] if ext else None)
     ch = [e for e in tr.calls() if e.callee == ("lib", "numpy.random.choice")]
     mu = [e for e in tr.of("localmut") if e.how == "setitem" and isinstance(e.d.get("old"), T.R) and copy_root(e.old)]
-    ok = len(ch) == 1 and len(mu) == 1 and _rooted_local(ch[0].args[0], "sample_idxs_grouped") and T.same(ch[0].args[1], TO - FROM) and ch[0].args[2] == T.TRUE
+    ok = len(ch) == 1 and len(mu) == 1 and pool is not None and _rooted_local(ch[0].args[0], pool) and T.same(ch[0].args[1], TO - FROM) and ch[0].args[2] == T.TRUE
     if ok:
         src = mu[0].value.single_atom()
         ok = src is not None and src[0] == "sub" and copy_root(src[1]) and src[2] == ch[0].result
